@@ -303,7 +303,17 @@ fn param_type_from_token(
     let mut current = token.parent();
     while let Some(node) = current {
         if let Some(param) = cst::nodes::Param::cast(node.clone()) {
-            return param.ty().map(|t| t.to_string());
+            let written = param.ty().map(|t| t.to_string())?;
+            // `self: Self` has the type the impl is for, and that is what the typer gave it
+            if written.trim() == "Self"
+                && let Some(for_type) = node
+                    .ancestors()
+                    .find_map(cst::nodes::Impl::cast)
+                    .and_then(|imp| imp.for_type())
+            {
+                return Some(for_type.to_string().trim().to_string());
+            }
+            return Some(written);
         }
         if let Some(param) = cst::nodes::ClosureParam::cast(node.clone()) {
             if let Some(ty) = param.ty() {
